@@ -555,7 +555,7 @@ static void gen_c03(vf::Src& src, Case& c, bool exhaustive)
         e.optional = flag(src, exhaustive, 50);
         if (e.kind == TOGGLE)
         {
-            e.reversible = !exhaustive && src.coin(30);
+            e.reversible = flag(src, exhaustive, 40);
             e.tdef = exhaustive ? 3 : src.irange(0, 4);
         }
         else if (e.kind == OPTION)
@@ -579,7 +579,11 @@ static void gen_c03(vf::Src& src, Case& c, bool exhaustive)
         st.env_word.push_back(w);
         if (on_cmd)
         {
-            if (e.kind == TOGGLE)
+            // a reversible toggle may be given in its negative spelling: still "given on the
+            // command line", the environment must not be consulted
+            if (e.kind == TOGGLE && e.reversible && flag(src, exhaustive, 45))
+                st.argv.push_back("--no-" + e.name);
+            else if (e.kind == TOGGLE)
                 st.argv.push_back("--" + e.name);
             else
             {
